@@ -208,8 +208,12 @@ def parse_log(path):
             r["verdict"] = "fail"
         else:
             r["verdict"] = "inconclusive"
+            nerr = len(re.findall(r"- Status: ERROR", text))
             tail = text.strip().splitlines()[-15:]
-            r["why"] = "FAILED without a failed check (CBMC error/OOM?): " + " | ".join(tail)[-600:]
+            if nerr:
+                r["why"] = "%d checks ended with Status: ERROR (solver gave up: memory cap?)" % nerr
+            else:
+                r["why"] = "FAILED without a failed check (CBMC error/OOM?): " + " | ".join(tail)[-600:]
     else:
         tail = text.strip().splitlines()[-12:]
         r["why"] = "no verdict in kani output: " + " | ".join(tail)[-800:]
@@ -251,6 +255,8 @@ def main(argv):
     ap.add_argument("--only", default=None, help="run only harnesses whose name contains this")
     ap.add_argument("--replay", default=None, help="re-run a recorded replay test")
     ap.add_argument("--workers", type=int, default=None)
+    ap.add_argument("--mem", type=int, default=None, help="address-space cap per harness in GiB")
+    ap.add_argument("--timeout", type=int, default=None, help="wall-clock cap per harness in s")
     ap.add_argument("--list", action="store_true")
     a = ap.parse_args(argv)
 
@@ -268,6 +274,10 @@ def main(argv):
     caps.update(spec.get("caps", {}).get(tier, {}))
     if a.workers:
         caps["workers"] = a.workers
+    if a.mem:
+        caps["mem_gib"] = a.mem
+    if a.timeout:
+        caps["timeout"] = a.timeout
     seed = int(os.environ.get("VERIF_SEED", "0") or 0)
     feats = [prop.lower()] + (["thorough"] if tier == "thorough" else [])
     names = harness_names(prop, tier)
